@@ -24,12 +24,14 @@ Cls == CASE last.op = "fromLocal" -> Classify(last.z, last.w) \o "/" \o last.dis
          [] last.op = "wall" -> IF \E i \in 1..NT(last.z) : last.z.trans[i].at = last.t THEN "at-transition" ELSE "between"
          [] last.op = "views" -> "views/" \o last.via \o "/" \o (IF \E i \in 1..NT(last.z) : last.z.trans[i].at = last.t THEN "at-transition" ELSE "between")
          [] last.op = "bag" -> "bag/" \o last.oc.k \o "/" \o last.oo \o "/" \o Classify(last.z, last.w) \o CloseTag
+         [] last.op = "relto" -> "relativeTo/" \o last.oc.k \o "/" \o Classify(last.z, last.w) \o CloseTag
          [] last.op = "interpret" -> last.oc.k \o "/" \o last.oo \o "/" \o Classify(last.z, last.w) \o CloseTag
 CaseOf ==
   CASE last.op = "fromLocal" -> [op |-> "Zoned.fromLocal", cls |-> Cls, args |-> [zone |-> last.z, w |-> last.w, dis |-> last.dis], out |-> last.out]
     [] last.op = "wall" -> [op |-> "Zoned.wall", cls |-> Cls, args |-> [zone |-> last.z, t |-> last.t], out |-> last.out]
     [] last.op = "views" -> [op |-> "Zoned.views", cls |-> Cls, args |-> [zone |-> last.z, t |-> last.t, via |-> last.via], out |-> last.out]
     [] last.op = "bag" -> [op |-> "Zoned.fromPartial", cls |-> Cls, args |-> [zone |-> last.z, w |-> last.w, offk |-> last.oc.k, offmin |-> last.oc.o \div 60, dis |-> last.dis, offopt |-> last.oo], out |-> last.out]
+    [] last.op = "relto" -> [op |-> "Zoned.relTo", cls |-> Cls, args |-> [zone |-> last.z, w |-> last.w, offk |-> last.oc.k, off |-> last.oc.o], out |-> last.out]
     [] last.op = "interpret" -> [op |-> "Zoned.fromStr", cls |-> Cls, args |-> [zone |-> last.z, w |-> last.w, offk |-> last.oc.k, off |-> last.oc.o, dis |-> last.dis, offopt |-> last.oo], out |-> last.out]
 Emit == last.op = "none" \/ PrintT("CASE " \o ToJson(CaseOf))
 =============================================================================
